@@ -74,7 +74,7 @@ def clause_family(c):
     return "exits"
 
 
-TAGS = [":after-flip-by-market-replacement", ":flip-by-market-replacement-in-run", ":flip-by-market-replacement",
+TAGS = [":oversize-ro-spot-in-run", ":oversize-ro-spot", ":after-flip-by-market-replacement", ":flip-by-market-replacement-in-run", ":flip-by-market-replacement",
         ":oversize-ro-in-run", ":oversize-ro", ":after-flip", ":flip-in-run", ":flip"]
 
 
